@@ -131,10 +131,14 @@ Qed.
 
 Lemma tbl_max_boxed : tbl_ok "glue.max_boxed".
 Proof.
-  start. cbv zeta in *. destruct (Z.leb_spec (sarg 0 a) 0) as [|Hp]; [contradiction Hdom; reflexivity|].
-  unfold g_max_boxed. rewrite limbs_for_precision_ceil by exact Hp.
-  set (m := Z.to_nat ((sarg 0 a + 63) / 64)).
-  assert (Hm : m <> 0%nat). { unfold m. Z.div_mod_to_equations. lia. }
+  start. cbv zeta in *. destruct (Z.ltb_spec (sarg 0 a) 0) as [|Hp]; [contradiction Hdom; reflexivity|].
+  unfold g_max_boxed.
+  assert (E : Nat.max (limbs_for_precision (sarg 0 a)) 1 = Nat.max 1 (Z.to_nat ((sarg 0 a + 63) / 64))).
+  { destruct (Z.eq_dec (sarg 0 a) 0) as [E0|Hn].
+    - rewrite E0. vm_compute. reflexivity.
+    - rewrite limbs_for_precision_ceil by lia. apply Nat.max_comm. }
+  rewrite E. set (m := Nat.max 1 (Z.to_nat ((sarg 0 a + 63) / 64))).
+  assert (Hm : m <> 0%nat) by (unfold m; lia).
   rewrite vec_into_boxed_nonempty.
   - rewrite BitsTablesP.maxs_to_limbs. reflexivity.
   - destruct m; [congruence | discriminate].
